@@ -70,10 +70,10 @@ def gen_template(rnd, ti):
             continue
         inter.append([t, rnd.sample(keys, ar), [rnd.choice(['1', '2']), rnd.choice(['0.47', '0.33', '120']), rnd.choice(['1250', '25'])],
                       {'version': 1} if rnd.random() < 0.1 else {}])
-    big = rnd.random() < 0.15
+    big = rnd.random() < 0.25
     if big:
         # residue numbers / charge groups of six digits and more (a solvent molecule deep into a large system; -resid input)
-        off = rnd.choice([99990, 100000, 250000, 10 ** 6, 3 * 10 ** 7])
+        off = rnd.choice([100000, 100000, 250000, 10 ** 6, 3 * 10 ** 7])
         cgoff = rnd.choice([0, off])
         for k, a in atoms:
             a['resid'] += off
@@ -103,7 +103,7 @@ def near_copy(rnd, tpl):
     elif kind == 'int-plus-one':
         # an integer field (residue number, charge group) that differs by one; the template may carry large numbers (m['big'])
         a = rnd.choice(m['atoms'])[1]
-        f = rnd.choice(['resid', 'charge_group'])
+        f = rnd.choice([f_ for f_ in ('resid', 'charge_group') if a[f_] >= 100000] or ['resid', 'charge_group'])
         a[f] = a[f] + 1
     elif kind == 'float-eps':
         # a charge or mass that differs in the 6th-9th significant digit: another number in the written file
@@ -166,7 +166,8 @@ def gen_system(rnd):
     for i, m in enumerate(mols):
         m['chain'] = rnd.choice('ABC')
         m['shift'] = [i * 3.0, rnd.uniform(0, 2), rnd.uniform(0, 2)]
-    return {'mols': mols, 'dedup': rnd.random() < 0.75}
+    return {'mols': mols, 'dedup': rnd.random() < 0.75,
+            'npint': rnd.random() < (0.6 if any(t.get('big') for t in tpls) else 0.15)}
 
 
 def build(case):
@@ -179,6 +180,9 @@ def build(case):
     for m in case['mols']:
         mol = Molecule(force_field=ff, nrexcl=m['nrexcl'])
         for i, (k, a) in enumerate(m['atoms']):
+            if case.get('npint'):
+                # integer attributes held as numpy integers (a system built from arrays): still identifiers, compared exactly
+                a = {kk: (np.int64(vv) if isinstance(vv, int) and not isinstance(vv, bool) else vv) for kk, vv in a.items()}
             mol.add_node(k, chain=m['chain'], position=np.array([m['shift'][0] + 0.1 * i, m['shift'][1], m['shift'][2]]), **a)
         for t, atoms, params, meta in m['inter']:
             mol.add_interaction(t, atoms, list(params), meta=dict(meta))
